@@ -51,6 +51,9 @@ THEOREMS = [
     "Ural.Props.C14.api_unquote_contract",
     "Ural.Props.C14.api_delimiters",
     "Ural.Props.C14.api_functions",
+    # FX-C01-NFKCUSERINFO: safely_unquote_auth_item = the partial, then the NFKC look-alikes of a delimiter re-quoted
+    "Ural.Props.C14.tables_auth_wrapper",
+    "Ural.Props.C14.auth_item_contract",
     "Ural.Props.C14.qsl_contract",
     # safely_quote(string, safe=...) (FX-C01-6e09416: safely_quote_qsl passes safe="/+")
     "Ural.Props.C14.quote_default_safe",
@@ -160,7 +163,23 @@ CORPUS = [
     # upper_quoted: every shape of LOWERCASE_QUOTED_RE's three alternatives, and its look-alikes
     "%2f", "%f2", "%ff", "%fF", "%Ff", "%FF", "%22", "%c3%a9", "%aG", "%ga", "%%2f", "%2%2f", "%2f%", "%2ff",
     "f%2f/é%c3", "%é2f", "%2\u00e9f", "a?é%41\n[%2f",
+    # FX-C01-NFKCUSERINFO: safely_unquote_auth_item keeps escaped a character whose NFKC form holds a url delimiter
+    # (U+FF20 '@', U+FF1A ':', U+2100 'a/c'), written with escapes of either case, raw, behind an ill-formed byte, next
+    # to a decoded character; the other three unquoters decode it
+    "%EF%BC%A0x", "%ef%bc%a0x%C3%A9", "u%EF%BC%9A%40", "\uff20", "a\uff0f%EF%BC%9F", "%EF%EF%BC%A0", "%EF%BC\uff20%A0", "%E2%84%80%e2%84%80",
 ]
+
+
+def _nfkc_lookalikes():
+    """every code point of the regenerated table Gen.nfkcDelimCodes (what the running urlsplit refuses in a netloc),
+    escaped (upper / lower case), raw, and between text: the class of FX-C01-NFKCUSERINFO for the unquoters"""
+    from gen_tables.c08 import nfkc_rejected_codes
+
+    out = []
+    for cp in nfkc_rejected_codes():
+        e = "".join("%%%02X" % b for b in chr(cp).encode("utf-8"))
+        out += [e, e.lower(), chr(cp), "a" + e + "%40é", "%C3" + e + chr(cp)]
+    return out
 WIN_QUICK = ["%", "2", "F", "f", "z", "/", "é"]
 WIN_THOROUGH = WIN_QUICK + [" "]
 BYTE_ATOMS = [
@@ -174,6 +193,8 @@ BYTE_ATOMS = [
 
 def cases(rng, tier):
     for s in CORPUS:
+        yield {"s": s, "x": 1}
+    for s in _nfkc_lookalikes():
         yield {"s": s, "x": 1}
     yield {"s": "", "x": 1}
     for a in ATOMS:
@@ -431,6 +452,10 @@ def nontrivial(case):
     return None
 
 
+# a few characters of the class of FX-C01-NFKCUSERINFO (raw or escaped), for the distribution only
+_NFKC_LOOKALIKE = re.compile("[\uff20\uff0f\uff1a\uff1f\uff03\u2100]|%[Ee][Ff]%[Bb][Cc]%(?:[Aa]0|8[Ff]|9[AaFf]|83)|%[Ee]2%84%80")
+
+
 def classify(case):
     if "bytes" in case:
         return ["utf8-bytes"]
@@ -444,6 +469,8 @@ def classify(case):
         labs.append("has-space")
     if not s.isascii():
         labs.append("has-non-ascii")
+    if _NFKC_LOOKALIKE.search(s):
+        labs.append("nfkc-delimiter-lookalike")
     if re.search(r"%[89A-Fa-f][0-9A-Fa-f]", s):
         labs.append("has-high-byte-escape")
     if re.search(r"%(?:[01][0-9A-Fa-f]|7[Ff])", s):
